@@ -227,6 +227,8 @@ def run(repo, tier):
     res.oblige('D1', '_compute_mask returns input mask | non-finite mask', union_ok, nontrivial=True)
     if not union_ok:
         res.add(Finding('D1', f.fullname, 'mask union', f.loc, '_compute_mask must return the union of the input mask and the non-finite mask', {}))
+    from .common import run_nonfinite
+    run_nonfinite(repo, res, {'photutils.profiles.core','photutils.profiles.radial_profile','photutils.profiles.curve_of_growth'})
     res.floor('L1', 100)
     res.floor('SLOT', 12)
     res.floor('SIB', 4)
